@@ -26,6 +26,12 @@ def make_types(rng, kind, nvars):
             lo = rng.choice([0.0, -5.0, 0.25, 1e-3, -1e6, 2.0])
             # (ranges whose width hi - lo is not a finite double are out of scope: the library cannot even draw an initial value for
             # them -- Real.rand() = random.uniform(lo, hi) returns inf or NaN --, see DESIGN.md 9.5)
+            if rng.random() < 0.2:
+                # bounds that are no short decimals (a child clipped onto them must stay on them: nothing may re-round it) and boxes far
+                # below 1 in size and position
+                lo_, hi_ = rng.choice([(math.pi - 1, math.pi), (1 / 3, 2 / 3), (-math.sqrt(2), math.e), (1e-15, 1e-13), (-2 / 3, -1 / 7), (0.1 + 0.2, 0.7)])
+                ts.append(("real", lo_, hi_))
+                continue
             ts.append(("real", lo, lo + rng.choice([1e-9, 1e-3, 0.5, 1.0, 3.0, 1e6, 1e300])))
         elif kind == "binary":
             ts.append(("binary", rng.choice([1, 2, 5, 8])))
